@@ -150,6 +150,51 @@ def run(tier, replay):
                     ck.violation("collision:%s:%s" % (parents[site[0]], r_["cls"]),
                                  "in the collision schedule the %s decay differs from the reference (%s): %s" % (parents[site[0]], r_["cls"], r_["detail"][:200]),
                                  {"jobs": [j for j in jobs if j.split()[1].startswith("c%d." % n_)]})
+    # ---- event-object reuse on every steered path: the same decay (same plan, same stream) generated into a brand-new event
+    #      object and into one with room for 64 particles must give bit-identical events
+    import c02
+    rjobs = []
+    for (l_, m_) in c02.cascade_jobs(S, rng, 1):
+        rjobs += [l_, l_.replace(" " + m_["id"] + " ", " " + m_["id"] + "R ", 1) + " R"]
+    for base, chain in S.bkg_names().items():
+        k0 = chain[0][0]
+        for (_e, p_) in S.witness_paths(k0):
+            jid = "%s.w%d" % (base, len(rjobs))
+            sd = 5 + len(rjobs)
+            rjobs += [sch.bjob(jid, pub.get(base, base), sd, [S.plan(k0, p_)]), sch.bjob(jid + "R", pub.get(base, base), sd, [S.plan(k0, p_)]) + " R"]
+    nshr = 6
+    rres = {}
+    with cf.ThreadPoolExecutor(max_workers=nshr) as ex:
+        def rsh(i):
+            # keep each (fresh, reserved) pair in the same shard
+            lines = []
+            for k_ in range(0, len(rjobs), 2):
+                if (k_ // 2) % nshr == i:
+                    lines += rjobs[k_:k_ + 2]
+            return vlib.sh([cexe], input="\n".join(lines) + "\n", timeout=1800, env=vlib.harness_env("plain"))
+        for rc_, out_ in ex.map(rsh, range(nshr)):
+            if rc_ != 0:
+                ck.violation("crash:reuse-schedule", "co-simulation harness died in the event-object reuse schedule (rc=%s): %s" % (rc_, out_[-400:]), None)
+            for l in out_.splitlines():
+                if l.startswith("{"):
+                    try:
+                        j_ = json.loads(l)
+                        if not j_["id"].endswith(":init"):
+                            rres[j_["id"].replace(":0", "")] = j_
+                    except ValueError:
+                        pass
+    nreuse = 0
+    for jid, r1 in rres.items():
+        if jid.endswith("R") or (jid + "R") not in rres:
+            continue
+        r2 = rres[jid + "R"]
+        nreuse += 1
+        if r1["fp"] != r2["fp"]:
+            ck.violation("event-object-dependent:%s" % jid.split(".")[0],
+                         "the same decay (%s, same plan and stream) differs between a brand-new event object and one with reserved capacity: %s" % (
+                             jid, r1["sig"][:160]), {"jobs": [j for j in rjobs if j.split()[1] in (jid, jid + "R")]})
+    ck.set("event_object_reuse_pairs", nreuse)
+    ck.add("evaluations", len(rjobs))
     ck.set("argument_collision_pairs", len(pairs))
     ck.set("collision_comparisons", ncol)
     ck.add("evaluations", len(jobs))
